@@ -383,11 +383,15 @@ def gen_step(rng, d, mins):
 class GenRecorder(SearchRecorder):
     """records (generation, individual) for every individual a `Population` registers"""
 
-    def __init__(self):
+    def __init__(self, limit: int = 20000):
         self.seen: list[tuple[int, Individual]] = []
+        self.limit = limit
 
     def register(self, tracker, individual, problem, is_best):
         self.seen.append((individual.metadata.get("generation"), individual))
+        if len(self.seen) > self.limit:
+            # a step that multiplies the population (seen on the unrepaired tree) must not hang the check
+            raise RuntimeError("PopulationExplosion")
 
     def generations(self) -> list[list[Individual]]:
         gens: dict[int, list[Individual]] = {}
